@@ -22,7 +22,7 @@ RULE = ('family "catalog": every catalogue design (C07/C08/C09/C14 grids + extra
         'evaluation in which some wire is non-zero')
 ASSUMPTIONS = ['the observation points are those of the statement: after simulator creation, after any clock call, inside listeners, waveform samples',
                'values poked by the harness itself go through Wire.put (the public way to drive an undriven wire)']
-BOUNDS = {'quick': 'catalogue at the quick grids; extremes for widths 0..3 and the special widths; numpy integer scalars of every dtype as stimulus',
+BOUNDS = {'quick': 'catalogue at the quick grids; extremes for widths 0..3 and the special widths (incl. one operand wider than the result for 10 two-operand primitives, Mux2 and Mux, either position / selection); numpy integer scalars of every dtype as stimulus',
           'thorough': 'catalogue at the thorough grids; extremes for widths 0..6 and the special widths; numpy scalars'}
 CHUNK = 60
 
